@@ -498,7 +498,7 @@ func calleeFunc(info *types.Info, call *ast.CallExpr) *types.Func {
 }
 
 // assign records `v = rhs` (cls computed before any of the statement's kills).
-func (g *Graph) assign(env flagEnv, lhs ast.Expr, cls int8) flagEnv {
+func (g *Graph) assign(env flagEnv, lhs ast.Expr, cls int8, konst ...string) flagEnv {
 	root := g.rootVar(lhs)
 	if root == nil {
 		return env
@@ -507,7 +507,62 @@ func (g *Graph) assign(env flagEnv, lhs ast.Expr, cls int8) flagEnv {
 	if v := g.varOf(lhs); v != nil && cls != 0 && (isBoolType(v.Type()) || nilable(v.Type())) {
 		env = env.with(varKey(v), cls)
 	}
+	// a local of a basic (integer, string, …) type that is given a constant: the
+	// atom `v == c` holds until v is written again (an enum verdict tested later)
+	if len(konst) == 1 && konst[0] != "" {
+		if v := g.varOf(lhs); v != nil && !isBoolType(v.Type()) {
+			if _, basic := v.Type().Underlying().(*types.Basic); basic {
+				env = env.with(eqKey(varKey(v), konst[0]), 2)
+			}
+		}
+	}
 	return env
+}
+
+func eqKey(l, r string) string {
+	if l > r {
+		l, r = r, l
+	}
+	return "(" + l + "==" + r + ")"
+}
+
+// constOf: the constant an expression stands for on this path ("#…"), or "".
+func (g *Graph) constOf(e ast.Expr, env flagEnv) string {
+	e = ast.Unparen(e)
+	if tv, ok := g.Info.Types[e]; ok && tv.Value != nil && !isBoolType(tv.Type) {
+		return "#" + tv.Value.ExactString()
+	}
+	if id, ok := e.(*ast.Ident); ok {
+		if v := g.varOf(id); v != nil {
+			vk := varKey(v)
+			for k, c := range env {
+				if c != 2 {
+					continue
+				}
+				if term, konst, ok := eqParts(k); ok && term == vk {
+					return konst
+				}
+			}
+		}
+	}
+	return ""
+}
+
+// zeroConst: the constant key of the zero value of a basic type, or "".
+func zeroConst(t types.Type) string {
+	b, ok := t.Underlying().(*types.Basic)
+	if !ok {
+		return ""
+	}
+	switch {
+	case b.Info()&types.IsBoolean != 0:
+		return ""
+	case b.Info()&types.IsString != 0:
+		return `#""`
+	case b.Info()&types.IsInteger != 0:
+		return "#0"
+	}
+	return ""
 }
 
 // transfer applies the effect of cfg node n on env.
@@ -516,11 +571,13 @@ func (g *Graph) transfer(n ast.Node, env flagEnv) flagEnv {
 	case *ast.AssignStmt:
 		if len(x.Lhs) == len(x.Rhs) && (x.Tok == token.ASSIGN || x.Tok == token.DEFINE) {
 			cls := make([]int8, len(x.Rhs))
+			ks := make([]string, len(x.Rhs))
 			for i, r := range x.Rhs {
 				cls[i] = g.classOf(r, env)
+				ks[i] = g.constOf(r, env)
 			}
 			for i, l := range x.Lhs {
-				env = g.assign(env, l, cls[i])
+				env = g.assign(env, l, cls[i], ks[i])
 			}
 			return env
 		}
@@ -555,9 +612,13 @@ func (g *Graph) valueSpec(vs *ast.ValueSpec, env flagEnv) flagEnv {
 	for i, nm := range vs.Names {
 		switch {
 		case len(vs.Values) == 0:
-			env = g.assign(env, nm, 1) // zero value: false / nil
+			zk := ""
+			if o := g.Info.Defs[nm]; o != nil {
+				zk = zeroConst(o.Type())
+			}
+			env = g.assign(env, nm, 1, zk) // zero value: false / nil / 0 / ""
 		case len(vs.Values) == len(vs.Names):
-			env = g.assign(env, nm, g.classOf(vs.Values[i], env))
+			env = g.assign(env, nm, g.classOf(vs.Values[i], env), g.constOf(vs.Values[i], env))
 		default:
 			env = g.assign(env, nm, 0)
 		}
